@@ -464,6 +464,8 @@ type concCase struct {
 	slowat   int    // source Emit call index that takes `slowms` milliseconds before it returns (-1 = none): a quiet source
 	slowms   int
 	ptr      bool   // concurrent map to a POINTER type whose mapper returns nil for elements i with i%3 == 1
+	over     string // ccons: "cmap" = the concurrently consumed stream is itself a concurrent map (identity mapper) over the source
+	cwait    bool   // pipe: after its reads the consumer waits on ITS context (it does not read on): a failing stream must end it
 	tail     bool   // the asynchronous stage is the SECOND inner stream of ConcatStreams(empty, stage): opened from emit, under the caller's ctx
 	twice    bool   // the source is ConcatStreams(probe stream, probe stream): one provider, two open windows in a row
 	outerr   bool   // the source is Concat(stream of streams): the outer stream yields the probe stream, then fails
@@ -544,6 +546,10 @@ func parseConcCase(text string) (*concCase, error) {
 			cc.twice = v == "1"
 		case "tail":
 			cc.tail = v == "1"
+		case "cwait":
+			cc.cwait = v == "1"
+		case "over":
+			cc.over = v
 		case "ctxbound":
 			cc.ctxbound = v == "1"
 		case "ign":
@@ -836,6 +842,10 @@ func (r *concRun) baseStream() stream.Stream[int] {
 		b = stream.Buffered(cmap(src), cc.size)
 	default:
 		b = src
+		if cc.op == "ccons" && cc.over == "cmap" {
+			b = stream.MapWithErrAndCtx(src, func(ctx context.Context, v int) (int, error) { return v, nil },
+				stream.WithConcurrentMapOption(cc.c))
+		}
 	}
 	if cc.tail && cc.op != "ccons" && cc.op != "pipe" {
 		// Concat opens its later inner streams while emitting, not while opening: the stage's goroutines must still be
@@ -910,6 +920,15 @@ func (r *concRun) build() func() error {
 					for i := 0; i < 4000 && !r.src.parked.Load(); i++ {
 						time.Sleep(50 * time.Microsecond)
 					}
+				}
+				if cc.cwait {
+					// a consumer that honours its context and is busy elsewhere (a stalled sink): the helper cancels that
+					// context when the stream fails
+					<-ctx.Done()
+					r.mu.Lock()
+					r.pipeRet = true
+					r.mu.Unlock()
+					return cc.reads, context.Cause(ctx)
 				}
 				r.mu.Lock()
 				r.pipeRet = true
